@@ -151,7 +151,7 @@ Proof. vm_compute. reflexivity. Qed.
 (* protection off: the deadline is extended (Debug messages), the work completes *)
 Example C14_deadline_extension :
   run cfg_off [OStart (PPrint 1 (PWork 7 (PPrint 2 PEnd)))]
-  = [Some (mkObs Returned 40 true true [1; 2] false 0 0 6 12)].
+  = [Some (mkObs Returned 38 true true [1; 2] false 0 0 5 12)].
 Proof. vm_compute. reflexivity. Qed.
 
 (* protection off and an endless loop: the host call does not return *)
